@@ -2160,6 +2160,15 @@ def check(ctx):
     rule5(ctx, rep, fx)
     rule6(ctx, rep, fx)
     rule7(ctx, rep)
+    from . import shared
+
+    def _c08(m):
+        m._rule1(ctx, rep, m.Model(ctx))
+
+    shared.borrow(ctx, rep, [
+        ('c07', lambda m: m._rule5(m.Model(ctx), rep), 'a stored file removed or rewritten behind the catalogue is a value that no longer comes back intact'),
+        ('c08', _c08, 'an id handed out twice makes two author identities share one key: a load returns the data of another author'),
+    ])
     if ctx.thorough:
         _post_sibling(ctx, rep)
     return rep
